@@ -96,8 +96,12 @@ class DecodeModel:
             if o.get("k") == "member" and o.get("field") == self.table:
                 if nm == "erase":
                     ops.append(("erase", n))
-                elif nm == "operator[]":
+                elif nm in ("operator[]", "at", "find"):
                     ops.append(("index", n))
+                elif nm == "insert_or_assign":
+                    ops.append(("assign", n))
+                elif nm in ("try_emplace", "emplace", "insert"):
+                    ops.append(("insert-if-absent", n))
                 else:
                     ops.append(("other:" + str(nm), n))
             elif nm == "operator=" and o.get("k") == "call" and (o.get("callee") or {}).get("nm") in ("operator[]", "at") and \
@@ -234,35 +238,101 @@ def rule_keyed_access(res, rid, m, also_methods=True):
     return n_uses
 
 
+def _comparison_only(fn, fields):
+    """The body touches key fields only through relational/logical operators on
+    this->f / rhs.f (so a 3-value domain per field realises every ordering)."""
+    for n in walk(fn.body):
+        k = n.get("k")
+        if k in ("compound", "return", "this"):
+            continue
+        if k == "bin" and n.get("op") in ("<", ">", "<=", ">=", "==", "!=", "&&", "||"):
+            continue
+        if k == "un" and n.get("op") == "!":
+            continue
+        if k == "cast" and n.get("ck") in ("IntegralCast", "NoOp", "LValueToRValue", "IntegralToBoolean"):
+            continue
+        if k == "member" and n.get("dk") == "field" and n.get("field") in fields:
+            continue
+        if k == "ref" and n.get("dk") == "param":
+            continue
+        if k == "lit" and n.get("bool"):
+            continue
+        return False, "%s %s" % (k, n.get("op", ""))
+    return True, ""
+
+
 def rule_key_equality(res, rid, m):
-    """C05-R2 / C18-R3: Endpoint equality compares every field, hash reads key fields only."""
+    """C05-R2 / C18-R3: the table's key relation separates exactly the endpoints:
+    unordered_map: operator== holds iff all fields are equal, hash reads key fields only;
+    map: operator< is a strict weak ordering whose equivalence is equality of all fields.
+    Decided by exhaustive evaluation over the finite set of field orderings (the
+    operators touch fields only through comparisons)."""
+    import itertools
     fb = m.fb
     ep = fb.record(EP)
     names = [f["qname"] for f in ep["fields"]]
-    eq = fb.fn(EP + "::operator==")
-    ret = [n for n in eq.nodes() if n.get("k") == "return"]
-    ok = len(ret) == 1
-    compared = set()
-    if ok:
-        atoms = facts.conjuncts(ret[0]["e"], True)
-        for a in atoms:
-            if a[0] != "cmp" or a[2] != "==":
-                ok = False
-                continue
-            l, r = strip_all_casts(a[4]), strip_all_casts(a[5])
-            if l.get("k") == "member" and r.get("k") == "member" and l.get("field") == r.get("field") and \
-                    {strip(l["base"]).get("k"), strip(r["base"]).get("k")} == {"this", "ref"}:
-                compared.add(l["field"])
-            else:
-                ok = False
-    res.check(ok and compared == set(names), rid, "Endpoint::operator==", eq.loc,
-              "conjunction of == over every field (%s) of both operands" % ", ".join(f["name"] for f in ep["fields"]),
-              "Endpoint::operator== does not compare every field on both sides: compares %s of %s" % (sorted(compared), names))
-    h = fb.fn(DEC + "::EndpointHash::operator()")
-    rd = {d for d in reads(h.body) if "::" in d}
-    calls = facts.called_names(h.body)
-    res.check(rd <= set(names) and not calls, rid, "EndpointHash", h.loc, "hash is a function of key fields only (%s)" % sorted(x.split("::")[-1] for x in rd),
-              "EndpointHash reads %s / calls %s" % (sorted(rd - set(names)), sorted(calls)))
+    short = [f["name"] for f in ep["fields"]]
+    tbl_t = [f for f in m.fields if f["qname"] == m.table][0]["t"]["s"]
+    ordered = tbl_t.startswith("std::map")
+    if ("less<" in tbl_t and not "std::less<ASAM::CMP::Decoder::Endpoint>" in tbl_t) or "EndpointLess" in tbl_t:
+        raise Broken("reassembly table uses a custom comparator type: rule not derived")
+
+    def evalop(fn, a, b):
+        env = {}
+        for nm, x, y in zip(short, a, b):
+            env["this->" + nm] = x
+            env[fn.params[0]["decl"] + "." + nm] = y
+        try:
+            return bool(tables.ceval(fn, env))
+        except tables.Unsupported as e:
+            raise Broken("%s outside the comparison vocabulary: %s" % (fn.name, e))
+
+    if not ordered:
+        eq = fb.fn(EP + "::operator==")
+        okc, why = _comparison_only(eq, set(names))
+        if not okc:
+            raise Broken("Endpoint::operator== is not comparison-only (%s)" % why)
+        dom = list(itertools.product(range(2), repeat=len(short)))
+        bad = [(a, b) for a in dom for b in dom if evalop(eq, a, b) != (a == b)]
+        res.check(not bad, rid, "Endpoint::operator==", eq.loc,
+                  "operator== holds iff every field (%s) is equal — all %d orderings evaluated" % (", ".join(short), len(dom) ** 2),
+                  "Endpoint::operator== does not separate endpoints: for fields %s = %s vs %s it answers %s" %
+                  (short, bad[0][0] if bad else "", bad[0][1] if bad else "", (not (bad[0][0] == bad[0][1])) if bad else ""))
+        h = fb.fn(DEC + "::EndpointHash::operator()")
+        rd = {d for d in reads(h.body) if "::" in d}
+        calls = facts.called_names(h.body)
+        res.check(rd <= set(names) and not calls, rid, "EndpointHash", h.loc, "hash is a function of key fields only (%s)" % sorted(x.split("::")[-1] for x in rd),
+                  "EndpointHash reads %s / calls %s" % (sorted(rd - set(names)), sorted(calls)))
+        return
+    lt = fb.fn(EP + "::operator<")
+    okc, why = _comparison_only(lt, set(names))
+    if not okc:
+        raise Broken("Endpoint::operator< is not comparison-only (%s)" % why)
+    dom = list(itertools.product(range(3), repeat=len(short)))
+    L = {(a, b): evalop(lt, a, b) for a in dom for b in dom}
+    why = None
+    for a in dom:
+        if L[(a, a)]:
+            why = "irreflexivity fails for %s" % (a,)
+    for a in dom:
+        for b in dom:
+            if L[(a, b)] and L[(b, a)]:
+                why = why or "asymmetry fails for %s, %s" % (a, b)
+            equiv = not L[(a, b)] and not L[(b, a)]
+            if equiv != (a == b):
+                why = why or "endpoints %s and %s (fields %s) are %s by the ordering but %s" % (
+                    a, b, short, "equivalent" if equiv else "distinct", "differ" if a != b else "are equal")
+    if why is None:
+        for a in dom:
+            for b in dom:
+                if not L[(a, b)]:
+                    continue
+                for c in dom:
+                    if L[(b, c)] and not L[(a, c)]:
+                        why = why or "transitivity fails for %s < %s < %s" % (a, b, c)
+    res.check(why is None, rid, "Endpoint::operator<", lt.loc,
+              "strict weak ordering whose equivalence is equality of all fields — %d triples evaluated" % len(dom) ** 3,
+              "Endpoint::operator< is not a strict weak ordering that separates endpoints (%s): std::map loses or merges reassembly entries" % why)
 
 
 def rule_loop_typestate(res, rid, m):
@@ -278,8 +348,6 @@ def rule_loop_typestate(res, rid, m):
         key = "path:%s" % (cls or "unclassified:" + ",".join("%s=%s" % (k.split("::")[-1], v) for k, v in sorted(p.truth_labels().items())))
         if cls is not None:
             seen_classes.add(cls)
-        if any(k.startswith("other:") for k in eff):
-            continue  # reported by the keyed-access rule
         if cls is None:
             # a path the protocol states do not explain: it must not leave an entry behind
             last = eff[-1] if eff else None
@@ -713,12 +781,12 @@ def rule_first_restart(res, rid, m):
         if classify(p) != "first-segment":
             continue
         ops = m.path_table_ops(p)
-        reads_old = [k for k, _ in ops if k == "index" or k.startswith("other:")]
+        reads_old = [k for k, _ in ops if k == "index" or k.startswith("other:") or k == "insert-if-absent"]
         assigns = [nn for k, nn in ops if k == "assign"]
         ok = bool(assigns) and not reads_old
         src_ok = False
         for a in assigns:
-            ns = expand_locals(m.decode, a["args"][0])
+            ns = [y for arg in a.get("args", []) for y in expand_locals(m.decode, arg)]
             built = any(x.get("k") == "construct" and x.get("rec") == SEG and len(x.get("args", [])) >= 2 for x in ns)
             reads_table = any(x.get("k") == "member" and x.get("field") == m.table for x in ns)
             if built and not reads_table:
